@@ -1310,8 +1310,9 @@ fn number_decode(data: &[u8]) -> Option<usize> {
     for b in data.iter().rev() {
         match b {
             b'0'..=b'9' => {
-                result += (b - b'0') as usize * mult;
-                mult *= 10;
+                // saturate instead of wrapping around on very long numbers
+                result = result.saturating_add(((b - b'0') as usize).saturating_mul(mult));
+                mult = mult.saturating_mul(10);
             }
             _ => return None,
         }
